@@ -237,14 +237,16 @@ def _own_step(items):
     return any(it[0] in ("col", "sub") or (it[0] == "window" and _own_step(it[2])) for it in items)
 
 
-def ice3870_class(items):
+def ice3870_class(items, into_subs=False):
     """F55: somewhere in the nesting there is a `group` whose body, at its own level, consists of groups only (possibly
-    wrapped in `window`s): no derive / join of its own -- and its key column reaches the result (the join arguments of
-    this generator end in a `select` of other columns, which hides the defect: not descended into)"""
+    wrapped in `window`s): no derive / join of its own.  Outside join arguments this is exactly when the compiler
+    answers with the internal error 3870 (3276 enumerated nestings, 0 mismatches); inside a join argument -- which
+    ends in a `select` of other columns in this generator -- the defect shows only when a later group step needs the
+    key column, so with into_subs=True the predicate is a necessary condition only"""
     for it in items:
         if it[0] == "group" and not _own_step(it[2]):
             return True
-        if it[0] in ("group", "window") and ice3870_class(it[2]):
+        if (it[0] in ("group", "window") or (into_subs and it[0] == "sub")) and ice3870_class(it[-1], into_subs):
             return True
     return False
 
@@ -352,6 +354,9 @@ SCOPE_DIRECTED = [
     [("group", 1, [("window", (0, 0), [("group", 0, [("col", 1)])])]), ("col", 2)],
     # ... and the same nesting with a step of its own in the outer body: compiles, scoped as modelled
     [("group", 1, [("group", 0, [("col", 1)]), ("col", 2)])],
+    # ... inside a join argument: hidden by the closing select, unless a later group step by the same key needs the key column
+    [("sub", [("group", 1, [("group", 0, [("col", 1)])]), ("col", 2)]), ("col", 3)],
+    [("sub", [("group", 0, [("group", 1, [("col", 1)])]), ("group", 0, [("col", 2)])]), ("col", 3)],
 ]
 
 
@@ -360,7 +365,7 @@ def run_scope(ck):
     progs = [list(p) for p in SCOPE_DIRECTED]
     for _ in range(ck.n(150, 1200)):
         items = gen_scope(rng, 3, _Tags(), [8])
-        while ice3870_class(items) and rng.random() < 0.9:        # keep a few of the F55 class, no more
+        while ice3870_class(items, into_subs=True) and rng.random() < 0.9:        # keep a few of the F55 class, no more
             items = gen_scope(rng, 3, _Tags(), [8])
         progs.append(items)
     cases = []
@@ -391,7 +396,7 @@ def run_scope(ck):
             want["x%d" % tag] = ([BYS[b] for b in by], ("Rows" if kind == 0 else "Range", ms[0] if ms else None, me[0] if me else None), "".join(chr(x) for x in txt))
         if "ok" not in q:
             got = ck.disagreement("nested group / window program rejected by pl_to_rq: %s: %s" % (c["src"], json.dumps(q)[:200]),
-                                  {"src": c["src"], "impl": q, "ice_class": ice3870_class(c["items"])}, classify_scope)
+                                  {"src": c["src"], "impl": q, "ice_class": ice3870_class(c["items"], into_subs=True)}, classify_scope)
             ck.stat("scope-corr", "disagreement:" + (got or "rejected"))
             continue
         got, dup = rq_windows(q["ok"])
